@@ -621,6 +621,7 @@ class AcpiRT(Runtime):
         self.insts = [self.cls(0), self.cls(1)]
         self.ref = [{}, {}]  # per slot: key -> (value, shape, text); None while the slot is empty
         self.generation = [0, 0]
+        self.ndeleted = 0
         self._last_ent = None
 
     def enabled(self):
@@ -711,6 +712,11 @@ class AcpiRT(Runtime):
     def _content_check(self, op, raised):
         per, stale = self._real_content()
         if stale:
+            if not self.ndeleted:
+                return [self.viol("entry-not-per-instance",
+                                  "%s: __acached_per_instance_cache__ holds %d entr%s under a key that is not the id of any "
+                                  "live instance although no instance was deleted yet (not keyed per instance?): %r"
+                                  % (op.text, len(stale), "y" if len(stale) == 1 else "ies", stale), op)]
             return [self.viol("entry-after-gc", "%s: the per-instance cache keeps %d entr%s of collected instance(s): %r"
                               % (op.text, len(stale), "y" if len(stale) == 1 else "ies", stale), op)]
         for slot in (0, 1):
@@ -733,6 +739,7 @@ class AcpiRT(Runtime):
         self.ref[slot] = None
         del inst
         gc.collect()
+        self.ndeleted += 1
         self.count("instances deleted")
         if wr() is not None:
             return [self.viol("harness-instance-leak", "%s: the instance is still alive after del + gc.collect() "
